@@ -206,6 +206,128 @@ def evaluate(cases, pid="C17"):
     return out
 
 
+# ---------------------------------------------------------------------------
+# pipeline family: the real ranking task builds the dictionaries (task_ranking.py:165-237)
+
+PIPE_COLS = ["fa", "zb", "mc", "age", "zip", "dev", "os_", "hour", "Q1", "x9", "ua", "pos"]
+PIPE_HEADER = HEADER + """
+Definition encq (q : Q) : Z * Z := (Qnum q, Zpos (Qden q)).
+Definition degenerate (l : list Q) : bool := match l with [] => false | _ => Qeq_bool (qmin l) (qmax l) end.
+"""
+PIPE_TOL = 1e-9
+
+
+def gen_pipeline_case(rng):
+    k = rng.randint(2, 5)
+    cols = rng.sample(PIPE_COLS, k) + [rng.choice(["label", "y", "click", "Target"])]
+    cards = [rng.randint(2, 6) for _ in range(k)]
+    copies = []
+    if k >= 3 and rng.random() < 0.6:
+        j, src = rng.sample(range(k), 2)
+        copies.append([j, src])
+    signal = rng.sample(range(k), rng.randint(1, min(2, k)))
+    nrows = rng.randint(150, 600)
+    return dict(kind="pipeline", cols=cols, cards=cards, copies=copies, signal=signal, nrows=nrows,
+                dataseed=rng.randint(0, 10 ** 9), minibatch=rng.choice([50, 64, 100, 128]),
+                interaction_order=(1 if k == 2 else rng.choice([1, 2, 2, 2, 3]) if k <= 4 else rng.choice([1, 2])),
+                heuristic=rng.choice(["MI-numba-3mr", "MI-numba-3mr", "MI-numba-randomized-3mr"]), hashseed=0)
+
+
+def hexfrac(h):
+    return Fraction(float.fromhex(h))
+
+
+def evaluate_pipeline(cases, hashseed):
+    """Returns per case dict(status = ok|violation|excluded|near-tie, clause, impl, model)."""
+    if not cases:
+        return []
+    impl = vlib.run_impl("impl_c17.py", {"cases": cases}, env_extra={"PYTHONHASHSEED": str(hashseed)})["results"]
+    out = [None] * len(cases)
+    exprs, where, maps = [], [], []
+    for i, (c, r) in enumerate(zip(cases, impl)):
+        if not r.get("ok"):
+            out[i] = dict(status="violation", clause="the ranking task terminates normally", impl=r.get("error"), model=None)
+            continue
+        if r.get("ranks") is None or r.get("triplets") is None:
+            out[i] = dict(status="violation", clause="3mr_ranks.tsv / pairwise_ranks.tsv are written for a *3mr heuristic",
+                          impl={"exit": r.get("exit"), "has_triplets": r.get("triplets") is not None}, model=None)
+            continue
+        ids = {}
+
+        def fid(nme):
+            if nme not in ids:
+                ids[nme] = len(ids)
+            return ids[nme]
+
+        def cname(nme):
+            parts = nme.split(" AND_REL ")
+            if len(parts) == 1:
+                return "(Plain %d%%N)" % fid(nme)
+            return "(Rel %d%%N %d%%N)" % (fid(parts[0]), fid(parts[1]))
+        lbl = fid(c["cols"][-1])
+        T = "[" + "; ".join("(%s, %s, %s)" % (cname(a), cname(b), coqparse.lit(hexfrac(h))) for a, b, h in r["triplets"]) + "]"
+        rows = []
+        unknown = 10 ** 6
+        for f, rk in r["ranks"]:
+            try:
+                z = int(rk)
+            except ValueError:
+                z = -1
+            rows.append("(%d%%N, %s%%Z)" % (ids.get(f, unknown), vlib.zlit(z)))
+        exprs.append("let T := %s in let lbl := %d%%N in let d := build_inst lbl T in let r := [%s] in "
+                     "(clauses_3mr d r, valid_slackb (1 # 1000000000) d r, "
+                     "(degenerate (map snd (relevance_rows lbl T)), degenerate (map snd (redundancy_rows lbl T)), "
+                     "degenerate (map snd (relation_rows lbl T))), "
+                     "map (fun '(k, v) => (k, encq v)) (rel d), map (fun '(a, b, v) => (a, b, encq v)) (red d), "
+                     "map (fun '(a, b, v) => (a, b, encq v)) (rln d), ranking d)" % (T, lbl, "; ".join(rows)))
+        where.append(i)
+        maps.append(ids)
+    vals = vlib.coq_eval("C17p", PIPE_HEADER, exprs, shard=4) if exprs else []
+    for i, ids, v in zip(where, maps, vals):
+        inv = {k: nme for nme, k in ids.items()}
+        c1, c2, c3, c4, slack, degs, mrel, mred, mrln, mrank = v
+        r = impl[i]
+        model_rank = [inv[f] for f in mrank]
+        if any(degs):
+            out[i] = dict(status="excluded", clause="min = max in a normalised table (division by zero; outside 'finite scores')",
+                          impl=r["ranks"], model=model_rank)
+            continue
+        # 1. the dictionaries the caller built
+        bad = None
+        if r.get("dicts") is not None:
+            d = r["dicts"]
+            m_rel = {inv[k]: Fraction(n, dd) for k, (n, dd) in mrel}
+            m_red = {(inv[a], inv[b]): Fraction(n, dd) for a, b, (n, dd) in mred}
+            m_rln = {(inv[a], inv[b]): Fraction(n, dd) for a, b, (n, dd) in mrln}
+            i_rel = {k: h for k, h in d["rel"]}
+            i_red = {(a, b): h for a, b, h in d["red"]}
+            i_rln = {(a, b): h for a, b, h in d["rln"]}
+            for nm, mi, ii in (("relevance", m_rel, i_rel), ("redundancy", m_red, i_red), ("relation", m_rln, i_rln)):
+                if set(mi) != set(ii):
+                    bad = "%s dictionary: keys differ (impl-only %s, model-only %s)" % (
+                        nm, sorted(set(ii) - set(mi))[:4], sorted(set(mi) - set(ii))[:4])
+                    break
+                for k in mi:
+                    if ii[k] == "nan" or abs(float.fromhex(ii[k]) - float(mi[k])) > PIPE_TOL:
+                        bad = "%s dictionary: value at %s is %s, expected %.12g" % (
+                            nm, k, ii[k] if ii[k] == "nan" else float.fromhex(ii[k]), float(mi[k]))
+                        break
+                if bad:
+                    break
+        if bad:
+            out[i] = dict(status="violation", clause="the dictionaries handed to rank_features_3MR are the min-max normalised "
+                          "relevance / redundancy / relation scores of the triplets: " + bad, impl=r["ranks"], model=model_rank)
+            continue
+        failed = [CLAUSES[k] for k, ok in enumerate((c1, c2, c3, c4)) if not ok]
+        if not failed:
+            out[i] = dict(status="ok", clause=None, impl=r["ranks"], model=model_rank, dicts_seen=r.get("dicts") is not None)
+        elif slack:
+            out[i] = dict(status="near-tie", clause="; ".join(failed), impl=r["ranks"], model=model_rank)
+        else:
+            out[i] = dict(status="violation", clause="3mr_ranks.tsv: " + "; ".join(failed), impl=r["ranks"], model=model_rank)
+    return out
+
+
 def drop_feature(case, k):
     """The same instance without relevance key k (pairs mentioning it stay: they are then keys outside the dict)."""
     c = dict(case)
@@ -269,9 +391,14 @@ def check(run, replay):
     vlib.standard_proof_phase(run, ["Props/C17.vo"], "Outrank.Props.C17", THEOREMS)
 
     hashseed = run.rng.randint(0, 2 ** 32 - 1)
-    if replay is not None:
+    pipe_cases = []
+    if replay is not None and replay["case"].get("kind") == "pipeline":
+        pipe_cases = [replay["case"]]
+        cases = []
+    elif replay is not None:
         cases = [replay["case"]]
     else:
+        pipe_cases = [gen_pipeline_case(run.rng) for _ in range(14 if run.tier == "quick" else 150)]
         cases = load_corpus("C17")
         n = 260 if run.tier == "quick" else 2500
         for i in range(n):
@@ -326,6 +453,22 @@ def check(run, replay):
         run.obligations[-1] = (run.obligations[-1][0], False, "%d of %d data frames rejected" % (nbad, len(cases)))
     if differs_but_unique:
         run.notes.append("harness cross-check: %d accepted data frames differ from the model although the ranking is forced" % differs_but_unique)
+    # the caller
+    pev = evaluate_pipeline(pipe_cases, hashseed)
+    run.oblige("correspondence:task_ranking builds the dictionaries of build_inst and writes a valid 3mr_ranks.tsv", True)
+    pstat = {}
+    for c, e in zip(pipe_cases, pev):
+        pstat[e["status"]] = pstat.get(e["status"], 0) + 1
+        run.count_case(c, e["status"] == "ok" and len(e["model"]) >= 3)
+    pbad = [(c, e) for c, e in zip(pipe_cases, pev) if e["status"] == "violation"]
+    if pbad:
+        c, e = min(pbad, key=lambda ce: (len(ce[0]["cols"]), ce[0]["interaction_order"], ce[0]["nrows"]))
+        run.violation("counterexample", "C17 caller correspondence (build_inst / valid_3mr on the ranking task's outputs)",
+                      case=c, impl=e["impl"], model=e["model"], clause=e["clause"],
+                      extra={"failing_pipeline_cases": len(pbad), "total": len(pipe_cases)})
+        run.obligations[-1] = (run.obligations[-1][0], False, "%d of %d pipeline runs rejected" % (len(pbad), len(pipe_cases)))
+    run.cov["pipeline_runs"] = pstat
+    run.cov["pipeline_dicts_observed"] = sum(1 for e in pev if e.get("dicts_seen"))
     run.cov["frames_checked_in_coq"] = len(cases) - hist["impl_errors"]
     run.cov["same_order_as_transcription"] = same_as_model
     run.cov["input_distribution"] = hist
@@ -334,7 +477,7 @@ def check(run, replay):
     if run.tier == "thorough" and replay is None:
         run.cov["exhaustive_small_scope"] = ("3 features, relevance in {0,1}^3, one redundancy entry and one relation entry on "
                                              "every ordered pair, 3 strategies (1944 instances) included")
-    run.samples = [cases[j] for j in range(min(2, len(cases)))]
+    run.samples = [cases[j] for j in range(min(2, len(cases)))] + pipe_cases[:1]
     run.assumptions += [
         "feature names are abstracted to ids by the harness (equality of names = equality of ids)",
         "scores are dyadic rationals k/64 and alpha, beta multiples of 1/4, so distinct exact importances at one step differ by "
